@@ -262,6 +262,10 @@ func (g *luaGen) CyclicAnnotations() string {
 		"---@enum E1\nlocal E1 = {\n  A = (1),\n  B = (E1.A),\n  C = ((B)),\n}\nprint(E1.B)\n",
 		"---@class A\n---@field next A\n---@type A\nlocal of = nil\nprint(of.next.next.next.next.k)\n",
 		"---@generic T : T\n---@param p T\n---@return T\nfunction idt(p) return p end\nlocal r = idt(idt)\nprint(r.x)\n",
+		// the same graphs reached from a table constructor / an assignment (the opt-in type checks
+		// of luahelper.json walk the class and its parents for those)
+		"---@class A : B\n---@field fa number\n---@class B : A\n---@field fb string\n---@type A\nlocal ta = { fa = 1, fb = 2, zz = 3 }\nta.fa = \"s\"\nta.qq = 1\nprint(ta)\n",
+		"---@class A : A\n---@field self A\n---@type A\nlocal tb = { self = {} }\ntb.self = 1\nprint(tb.self.self)\n",
 	}
 	n := 1 + g.r.Intn(3)
 	for i := 0; i < n; i++ {
